@@ -290,6 +290,71 @@ def run(db: DB, rep: Report) -> None:
               "Tensor.fiber_name can yield the '_ref' name for a tensor that is not the output")
 
 
+def _levels_rule(db: DB, rep: Report) -> None:
+    """W7: flattenRanks(levels=) and its inverse unflattenRanks(levels=) are
+    both given (number of ranks of the flattened group) - 1."""
+    P = db.cls("teaal.trans.partitioner.Partitioner")
+    sites: List[Tuple[str, ast.AST, FuncInfo, ast.AST]] = []      # (api, levels expr, function, at)
+    for f in P.methods.values():
+        lv = [n for n in walk_no_nested(f.node) if isinstance(n, ast.Call) and norm(n.func) == "AParam"
+              and len(n.args) == 2 and isinstance(n.args[0], ast.Constant) and n.args[0].value == "levels"]
+        if not lv:
+            continue
+        apis = {c.value for n in walk_no_nested(f.node) if isinstance(n, ast.Call) and norm(n.func) == "EMethod"
+                for c in n.args[1:2] if isinstance(c, ast.Constant)}
+        for n in lv:
+            e = n.args[1]
+            if isinstance(e, ast.Call) and norm(e.func) == "EInt" and e.args:
+                e = e.args[0]
+            if isinstance(e, ast.Name) and e.id in f.call_params and not (apis & {"unflattenRanks", "flattenRanks"}):
+                # the builder shared by flattenRanks / mergeRanks: take the callers' expressions
+                k = f.call_params.index(e.id)
+                tk = 0
+                for g in P.methods.values():
+                    for c in walk_no_nested(g.node):
+                        if isinstance(c, ast.Call) and isinstance(c.func, ast.Attribute) and \
+                                c.func.attr == f.name and len(c.args) > k:
+                            kind = c.args[tk].value if isinstance(c.args[tk], ast.Constant) else "?"
+                            api = {"flatten": "flattenRanks", "merge": "mergeRanks"}.get(kind, "?")
+                            sites.append((api, c.args[k], g, c))
+            else:
+                for api in sorted(apis & {"unflattenRanks", "flattenRanks", "mergeRanks"}):
+                    sites.append((api, e, f, n))
+    if not {"flattenRanks", "unflattenRanks"} <= {a for a, _, _, _ in sites}:
+        raise AnalysisError("levels= arguments of flattenRanks / unflattenRanks not found in Partitioner")
+    for api, e, f, at in sites:
+        if api not in ("flattenRanks", "unflattenRanks"):
+            continue
+        r = paths.resolve_flow(e, at, f.node, depth=2)
+        lens = [x for x in ast.walk(r) if isinstance(x, ast.Call) and norm(x.func) == "len" and x.args]
+        form = isinstance(r, ast.BinOp) and isinstance(r.op, ast.Sub) and isinstance(r.right, ast.Constant) \
+            and r.right.value == 1 and isinstance(r.left, ast.Call) and norm(r.left.func) == "len" and \
+            len(r.left.args) == 1
+        group_ok = False
+        if form:
+            g0 = r.left.args[0]
+            t = db.type_of(g0, f)
+            # the group is a sequence of rank names (not the list of partitioning specs)
+            group_ok = bool(t) and t[0] in ("list", "tuple") and \
+                (t[1] == ("str",) or (t[0] == "tuple" and all(x == ("str",) for x in t[1])))
+            if not group_ok and isinstance(g0, ast.Name):
+                # un-annotated loop variable narrowed by isinstance(<g>, tuple): a rank-name tuple
+                group_ok = any(isinstance(t_, ast.Call) and norm(t_.func) == "isinstance" and
+                               norm(t_.args[0]) == g0.id and pol
+                               for t0, pol0 in paths.guards(at, stop=f.node)
+                               for t_, pol in paths.conjuncts(t0, pol0)) and \
+                    not any(isinstance(x, ast.Call) for x in ast.walk(g0))
+        rep.check("W7", form and group_ok, db.loc(at), f.short, "levels:%s" % api,
+                  "%s(levels=%s): number of ranks of the group minus one" % (api, norm(r)[:40]),
+                  "%s is emitted with levels=%s, which is not (number of ranks of the flattened group) - 1: "
+                  "a group of three or more ranks is only partly %s and the rank ids set afterwards name "
+                  "more ranks than the tensor has" %
+                  (api, norm(r)[:60], "flattened" if api == "flattenRanks" else "unflattened"),
+                  decided=(bool(lens) or isinstance(r, ast.Constant)) and not (form and not group_ok and
+                                                                               not any(isinstance(x, ast.Call) and x is not r.left
+                                                                                       for x in ast.walk(r.left))))
+
+
 RANK_CHANGERS = {"mergeRanks", "unflattenRanks", "flattenRanks", "splitUniform", "splitEqual",
                  "splitNonUniform"}
 
@@ -297,6 +362,8 @@ RANK_CHANGERS = {"mergeRanks", "unflattenRanks", "flattenRanks", "splitUniform",
 def _restore_rules(db: DB, rep: Report, hm) -> None:
     """W4-W6: the output is returned to its declared layout and every change of
     its rank structure is followed by a renaming of the rank ids."""
+    rep.rule("W7", "flattenRanks / unflattenRanks levels = ranks of the group - 1", 2)
+    _levels_rule(db, rep)
     # ---- W5: the footer always restores the output ---------------------------------
     rep.rule("W5", "the footer un-partitions the output on every path", 1)
     mf = db.func("teaal.trans.footer.Footer.make_footer")
@@ -417,7 +484,14 @@ def _parents(n: ast.AST, stop: ast.AST):
 def mutants(db: DB):
     from sa.selftest import M
     eq, hd, ie = "teaal/trans/equation.py", "teaal/trans/header.py", "teaal/ir/equation.py"
+    pt = "teaal/trans/partitioner.py"
     return [
+        M("unflatten levels from the partitioning spec", pt,
+          "                    args.append(AParam(\"levels\", EInt(len(info) - 1)))",
+          "                    args.append(AParam(\"levels\", EInt(len(part_ir.get_part_spec(info)))))", "W7"),
+        M("flatten levels off by one", pt,
+          "        assign = self.__build_flatten(\"flatten\", i, len(ranks) - 1, \"tuple\")",
+          "        assign = self.__build_flatten(\"flatten\", i, len(ranks), \"tuple\")", "W7"),
         M("populate operands swapped", eq,
           "            expr = Equation.__add_operator(\n                EVar(output.fiber_name()), OLtLt(), expr)",
           "            expr = Equation.__add_operator(\n                expr, OLtLt(), EVar(output.fiber_name()))", "W1"),
